@@ -13,3 +13,5 @@ pub mod c16;
 pub mod c19;
 pub mod c02;
 pub mod c18;
+pub mod storage;
+pub mod c15;
